@@ -129,3 +129,34 @@ Proof.
   intros Hh He Hb.
   apply (heatbath_pipeline_stationary_canon (ising_ham g) (ising_sym_ham g Hh) (i_nvars g) L (ising_vars_ok g Hh He) beta Hb).
 Qed.
+
+(* ---------------- with totality of the decomposition (Proofs/DecomposeTotal.v) ---------------- *)
+From QmcV Require Import Proofs.DecomposeTotal.
+
+(* the identification of the model's timestep with the pipeline needs no hypothesis about the decomposition *)
+Theorem ising_timestep_is_pipeline_total g beta st sl (f : cfg -> Q) :
+  has_long g = false -> wf st sl = true ->
+  expect (ising_timestep g false beta (length sl) st sl) (obs_of f)
+  == expect (pipeline_cfg (update_cfg (met_update (ising_ham g) beta)) (st, sl)) f.
+Proof.
+  intros Hh Hwf. apply ising_timestep_is_pipeline; try assumption. intros p r _ _. apply decompose_total.
+Qed.
+
+Theorem ising_timestep_is_pipeline_w_total g beta st sl (f : cfg -> Q) :
+  has_long g = true -> wf st sl = true ->
+  expect (ising_timestep g false beta (length sl) st sl) (obs_of f)
+  == expect (pipeline_cfg_w (long_wf g) (update_cfg (met_update (ising_ham g) beta)) (st, sl)) f.
+Proof.
+  intros Hh Hwf. apply ising_timestep_is_pipeline_w; try assumption. intros p r _ _. apply decompose_total.
+Qed.
+
+Theorem cluster_cfg_is_gkernel_total c (f : cfg -> Q) :
+  expect (cluster_cfg c) f == expect (gkernel cl_act cl_k c) f.
+Proof. apply cluster_cfg_is_gkernel. intros _. apply decompose_total. Qed.
+
+(* the validity test is decided by the operators' variables alone *)
+Theorem cluster_valid_total c : vars_in_range (length (fst c)) (snd c) = true -> cluster_valid c = true.
+Proof.
+  intros Hr. rewrite (cluster_valid_iff c Hr). destruct (Nat.eqb (count_ops (snd c)) 0); [reflexivity|]. cbn [orb].
+  destruct (decompose (snd c)) eqn:E; [reflexivity|]. exfalso. now apply (decompose_total (snd c)).
+Qed.
